@@ -171,6 +171,41 @@ def run_cell(cell, seed):
             okc, d, ratio = util.compare('x.grad vs inverse(cotangent)', g[0], util.np64(ri), tol * m * 4)
             out.append(res(HELD, case, 'M-ADJ', ratio=ratio, bit_identical=bool(torch.equal(g[0], ri))) if okc else
                        res(VIOLATED, case, 'M-ADJ', d, ratio=ratio))
+    # ... and the other way round: back-propagating through the inverse equals applying the forward
+    # transform to the cotangent, whichever subset of (yl, yh_1..yh_J) requires grad
+    ok, p0 = util.call_lib(fwd, util.make_input('randn', [cell['N'], cell['C']] + sp, seed + 9))
+    if ok:
+        shapes = [list(t.shape) for t in util.flat_outputs(p0)]
+        pats = [[True] + [False] * J, [False] * J + [True], [True] * (J + 1)]
+        for pat in pats:
+            case = {'cell': cell, 'check': 'backward of inverse == forward', 'requires_grad': pat}
+            args = [util.make_input('randn', sh, seed + 70 + i).requires_grad_(bool(pat[i])) for i, sh in enumerate(shapes)]
+            ok, r = util.call_lib(inv, (args[0], args[1:]))
+            if not ok:
+                out.append(res(VIOLATED, case, 'M-ADJ', 'inverse raised %r' % (r,)))
+                continue
+            cot = util.make_input('randn', list(r.shape), seed + 90)
+            want_args = [a for a, q in zip(args, pat) if q]
+            ok, g = util.call_lib(torch.autograd.grad, [r], want_args, [cot], allow_unused=True)
+            ok2, pc = util.call_lib(fwd, cot)
+            if not ok or not ok2:
+                out.append(res(VIOLATED, case, 'M-ADJ', 'backward of the inverse (or forward of the cotangent) raised %r' % ((g if not ok else pc),)))
+                continue
+            exp = util.flat_outputs(pc)
+            gi = iter(g)
+            fail, worst = None, 0.0
+            for i, q in enumerate(pat):
+                if not q:
+                    continue
+                got = next(gi)
+                if got is None:
+                    fail = fail or 'no gradient delivered to %s' % ('yl' if i == 0 else 'yh[%d]' % (i - 1))
+                    continue
+                okc, d, ratio = util.compare('grad %d vs forward(cotangent)' % i, got, util.np64(exp[i]), tol * float(cot.abs().max()) * 4)
+                worst = max(worst, ratio)
+                if not okc and fail is None:
+                    fail = d
+            out.append(res(HELD, case, 'M-ADJ', ratio=worst) if fail is None else res(VIOLATED, case, 'M-ADJ', fail, ratio=worst))
     return out
 
 
